@@ -12,7 +12,7 @@ META = {
     'modules': ['zonal'],
     'functions': ['xrspatial.zonal.regions', 'xrspatial.zonal._area_connectivity'],
     'bounds': {'quick': 'rasters 1x4, 4x1, 2x3, 3x2 with every cell a symbolic value in {-1, 0, 2} or NaN (every equality / NaN pattern is a solver-decided path), neighbourhood 4 and 8; '
-                        '3x3 with NaN-free cells for neighbourhood 4 and 8 under the path budget; the 4x6 "three labels meet" layout family with 4 symbolic cells; int32 rasters 2x2; NOT symbolic: every one of the 4096 layouts of a 4x3 raster over {-1, 2} for both neighbourhoods (concrete enumeration; the symbolic 4x3 run is in the thorough tier)',
+                        '3x3 with NaN-free cells for neighbourhood 4 and 8 under the path budget; the 4x6 "three labels meet" layout family with 4 symbolic cells; int32 rasters 2x2; NOT symbolic: every one of the 4096 layouts of a 4x3 raster over {-1, 2} and of a 3x4 raster over {0, 1} for both neighbourhoods (concrete enumeration; the symbolic 4x3 run is in the thorough tier)',
                'thorough': '3x3 with NaN exhaustively, 3x4 and 2x5 under budget'},
     'stubs': ['numba.jit = identity'],
     'outside': ['non-integer values whose isclose tolerance is not transitive', 'rasters larger than the bound'],
@@ -37,6 +37,7 @@ def jobs(tier, seed):
     for n in (4, 8):
         for lo in range(0, 4096, 512):
             out.append({'name': 'regions-4x3-n%d-layouts-%04d' % (n, lo), 'shape': [4, 3], 'n': n, 'nan': False, 'layouts': [lo, lo + 512], 'values': [-1.0, 2.0]})
+            out.append({'name': 'regions-3x4-n%d-layouts-%04d' % (n, lo), 'shape': [3, 4], 'n': n, 'nan': False, 'layouts': [lo, lo + 512], 'values': [0.0, 1.0]})
         if tier != 'quick':
             out.append({'name': 'regions-4x3-n%d-binary' % n, 'shape': [4, 3], 'n': n, 'nan': False, 'domain': [0, 1]})
     for sym in ([[1, 2], [2, 3], [3, 1], [3, 2]], [[1, 0], [2, 0], [1, 4], [2, 3]]):
@@ -88,7 +89,9 @@ def body(ctx, job):
 def _run(ctx, job, data, h, w, n):
     ys = coords_affine(h, 50.0, -10.0)
     xs = coords_affine(w, 7.0, 3.0)
-    agg = raster(data, ys=ys, xs=xs, name='r', attrs={'res': (3.0, 10.0), 'units': 'km'})
+    from sx import symxr
+    # 'band': a scalar (non-dimension) coordinate is part of the raster's identity
+    agg = symxr.DataArray(data, dims=('y', 'x'), coords={'y': ys, 'x': xs, 'band': symnp.asarray(3)}, attrs={'res': (3.0, 10.0), 'units': 'km'}, name='r')
     if n not in (4, 8):
         exc = ctx.raises(ctx.call, 'zonal:regions', agg, n)
         ctx.check('invalid-neighbourhood-rejected', exc == 'ValueError')
